@@ -52,7 +52,9 @@ def response_forms(df, meta, rng):
              ("`col 1`", "numeric", df["col 1"].to_numpy(dtype=float)),
              # calls whose callee / argument only exists in extra_namespace
              ("dbl(y)", "numeric", df["y"].to_numpy(dtype=float) * 2),
-             ("shift1(y, by=3)", "numeric", df["y"].to_numpy(dtype=float) + 3)]
+             ("shift1(y, by=3)", "numeric", df["y"].to_numpy(dtype=float) + 3),
+             ("shift1(y, by=gain)", "numeric", df["y"].to_numpy(dtype=float) + 3.0),
+             ("shift1(y, by=gain * 2)", "numeric", df["y"].to_numpy(dtype=float) + 6.0)]
     for col in ("ybig", "ybigN"):
         forms.append((col, "numeric-exact", [int(v) for v in df[col].tolist()]))
     for col in ("s", "o", "cu", "co", "yb"):
@@ -235,6 +237,27 @@ def judge(case, m):
                             key="response-missing-empty-rhs")
             elif kind == "numeric" and not np.allclose(np.asarray(dm.response.design_matrix, dtype=float).reshape(n), want):
                 m.violation("numeric-unchanged", f"'{formula}': response values changed", case={**case, "text": formula}, key="numeric")
+    # y[level] under na_action='pass' with missing responses (ordered categorical): a missing value equals no level
+    if len(df) >= 4 and not case.get("single_level"):
+        dfp = df.copy()
+        miss = np.zeros(len(df), bool)
+        miss[[0, len(df) // 2]] = True
+        dfp["co"] = pd.Categorical([None if q else v for q, v in zip(miss, df["co"].tolist())], categories=df["co"].dtype.categories, ordered=True)
+        rows_co = np.asarray(dfp["co"].tolist(), dtype=object)
+        for l in meta["co"]["levels"]:
+            formula = f"co['{l}'] ~ 1"
+            c = {**case, "text": formula, "response": f"co['{l}']", "response_kind": "level", "na_action": "pass"}
+            m.current_case = c
+            m.ev("level-indicator")
+            try:
+                R = np.asarray(formulae.design_matrices(formula, dfp, na_action="pass", extra_namespace=ns).response.design_matrix, dtype=float).reshape(-1)
+                want = np.array([1.0 if v == l else 0.0 for v in rows_co])
+                bad = (R.shape != want.shape) or np.any((R != want) & ~(miss & np.isnan(R)))
+                if bad:
+                    m.violation("level-indicator", f"{formula} under na_action='pass' with missing responses on rows {np.flatnonzero(miss).tolist()}: "
+                                f"response {R.tolist()[:8]} is not the indicator of the level", case=c, key="level:missing-response")
+            except Exception as e:
+                m.note("pass-with-missing-response-raised:" + type(e).__name__)
     # refused forms
     lv_s = meta["s"]["levels"]
     two = [l for l in lv_s if "'" not in str(l)][:2]
